@@ -110,7 +110,6 @@ type c36Env struct {
 	root string // scratch root of this test
 	home string
 	tmpl string // initialized repository template (directory named db)
-	n    int
 }
 
 var errC36Timeout = errors.New("child process timed out")
@@ -331,10 +330,39 @@ func (e *c36Env) sqlRoundTrip(db *c36DB, v c36Variant, keep bool) (violation str
 	return e.rawRoundTrip(db.buildScript(), fp, names, v, keep)
 }
 
+type c36Obs struct {
+	secs    []c36Section
+	skipped string
+	err     error
+}
+
+// observeSourceAsync runs the fingerprint script on the source repository in the background (the
+// caller meanwhile loads the copy, which lives in another repository).
+func (e *c36Env) observeSourceAsync(src, fp string, names []string) <-chan c36Obs {
+	ch := make(chan c36Obs, 1)
+	go func() {
+		out, se, err := e.run(src, []byte(fp), "sql", "-r", "csv")
+		if err != nil {
+			if err == errC36Timeout {
+				ch <- c36Obs{err: err}
+				return
+			}
+			ch <- c36Obs{skipped: "source not observable: " + c36Clip(se)}
+			return
+		}
+		secs, perr := c36ParseSections(out, names)
+		if perr != nil {
+			ch <- c36Obs{err: fmt.Errorf("source observation unparsable: %v\n%s", perr, c36Clip(out))}
+			return
+		}
+		ch <- c36Obs{secs: secs}
+	}()
+	return ch
+}
+
 // rawRoundTrip: build script -> source; dump; load into a fresh repository; compare the observations
 // that the fingerprint script fp (sections names) makes on both.
 func (e *c36Env) rawRoundTrip(build, fp string, names []string, v c36Variant, keep bool) (violation string, skipped string, err error) {
-	e.n++
 	caseDir, err := os.MkdirTemp(e.root, "case")
 	if err != nil {
 		return "", "", err
@@ -359,17 +387,6 @@ func (e *c36Env) rawRoundTrip(build, fp string, names []string, v c36Variant, ke
 			return "", "", err
 		}
 		return "", "build rejected: " + se, nil
-	}
-	srcOut, se, err := e.run(src, []byte(fp), "sql", "-r", "csv")
-	if err != nil {
-		if err == errC36Timeout {
-			return "", "", err
-		}
-		return "", "source not observable: " + c36Clip(se), nil
-	}
-	srcSecs, perr := c36ParseSections(srcOut, names)
-	if perr != nil {
-		return "", "", fmt.Errorf("source observation unparsable: %v\n%s", perr, c36Clip(srcOut))
 	}
 	args := []string{"dump"}
 	dumpFile := "doltdump.sql"
@@ -396,11 +413,21 @@ func (e *c36Env) rawRoundTrip(build, fp string, names []string, v c36Variant, ke
 	if err != nil {
 		return fmt.Sprintf("`dolt %s` succeeded but wrote no %s: %v", strings.Join(args, " "), dumpFile, err), "", nil
 	}
-	if so, se, err := e.run(dst, dump, "sql"); err != nil {
-		if err == errC36Timeout {
-			return "", "", err
+	srcCh := e.observeSourceAsync(src, fp, names) // overlaps with the load of the copy
+	loadSo, loadSe, loadErr := e.run(dst, dump, "sql")
+	srcObs := <-srcCh
+	if srcObs.err != nil {
+		return "", "", srcObs.err
+	}
+	if srcObs.skipped != "" {
+		return "", srcObs.skipped, nil
+	}
+	srcSecs := srcObs.secs
+	if loadErr != nil {
+		if loadErr == errC36Timeout {
+			return "", "", loadErr
 		}
-		return fmt.Sprintf("the dump cannot be loaded with `dolt sql < dump`: %v\nstdout: %s\nstderr: %s", err, c36Clip(so), c36Clip(se)), "", nil
+		return fmt.Sprintf("the dump cannot be loaded with `dolt sql < dump`: %v\nstdout: %s\nstderr: %s", loadErr, c36Clip(loadSo), c36Clip(loadSe)), "", nil
 	}
 	dstOut, se, err := e.run(dst, []byte(fp), "sql", "-r", "csv")
 	if err != nil {
@@ -442,7 +469,7 @@ func TestVerif_C36(t *testing.T) {
 	}
 	rec.Set("open_findings_excluded", open)
 	keep := os.Getenv("C36_KEEP") != ""
-	vh.Check(t, "sqldump", 40, 50, func(rt *rapid.T) {
+	vh.Check(t, "sqldump", 16, 30, func(rt *rapid.T) {
 		before := gate.excluded
 		db := c36GenDB(rt, gate)
 		v := c36DrawVariant(rt)
@@ -518,23 +545,41 @@ func (e *c36Env) rawFormatRoundTrip(build, schema string, tables []string, fp st
 		}
 		return "", "build rejected: " + se, nil
 	}
-	srcOut, se, err := e.run(src, []byte(fp), "sql", "-r", "csv")
-	if err != nil {
-		if err == errC36Timeout {
-			return "", "", err
-		}
-		return "", "source not observable: " + se, nil
-	}
-	srcSecs, perr := c36ParseSections(srcOut, names)
-	if perr != nil {
-		return "", "", fmt.Errorf("source observation unparsable: %v\n%s", perr, c36Clip(srcOut))
-	}
 	if so, se, err := e.run(src, nil, "dump", "-r", format, "-d", "out"); err != nil {
 		if err == errC36Timeout {
 			return "", "", err
 		}
 		return fmt.Sprintf("`dolt dump -r %s` failed: %v\nstdout: %s\nstderr: %s", format, err, c36Clip(so), c36Clip(se)), "", nil
 	}
+	srcCh := e.observeSourceAsync(src, fp, names) // overlaps with the import into the copy
+	importViol, importSkipped, importErr := e.importFiles(src, dst, schema, tables, format)
+	srcObs := <-srcCh
+	if srcObs.err != nil {
+		return "", "", srcObs.err
+	}
+	if srcObs.skipped != "" {
+		return "", srcObs.skipped, nil
+	}
+	srcSecs := srcObs.secs
+	if importErr != nil || importSkipped != "" || importViol != "" {
+		return importViol, importSkipped, importErr
+	}
+	dstOut, se, err := e.run(dst, []byte(fp), "sql", "-r", "csv")
+	if err != nil {
+		if err == errC36Timeout {
+			return "", "", err
+		}
+		return fmt.Sprintf("the copy cannot be observed like the source: %v\nstderr: %s", err, c36Clip(se)), "", nil
+	}
+	dstSecs, perr := c36ParseSections(dstOut, names)
+	if perr != nil {
+		return fmt.Sprintf("the copy's observation has another shape than the source's: %v", perr), "", nil
+	}
+	return c36DiffSections(srcSecs, dstSecs), "", nil
+}
+
+// importFiles creates the schema in dst and imports <src>/out/<table>.<format> for every table.
+func (e *c36Env) importFiles(src, dst, schema string, tables []string, format string) (violation string, skipped string, err error) {
 	if _, se, err := e.run(dst, []byte(schema), "sql"); err != nil {
 		if err == errC36Timeout {
 			return "", "", err
@@ -553,18 +598,7 @@ func (e *c36Env) rawFormatRoundTrip(build, schema string, tables []string, fp st
 			return fmt.Sprintf("`dolt table import -r %s %s.%s` failed: %v\nstdout: %s\nstderr: %s", name, name, format, err, c36Clip(so), c36Clip(se)), "", nil
 		}
 	}
-	dstOut, se, err := e.run(dst, []byte(fp), "sql", "-r", "csv")
-	if err != nil {
-		if err == errC36Timeout {
-			return "", "", err
-		}
-		return fmt.Sprintf("the copy cannot be observed like the source: %v\nstderr: %s", err, c36Clip(se)), "", nil
-	}
-	dstSecs, perr := c36ParseSections(dstOut, names)
-	if perr != nil {
-		return fmt.Sprintf("the copy's observation has another shape than the source's: %v", perr), "", nil
-	}
-	return c36DiffSections(srcSecs, dstSecs), "", nil
+	return "", "", nil
 }
 
 func TestVerif_C36_formats(t *testing.T) {
@@ -580,7 +614,7 @@ func TestVerif_C36_formats(t *testing.T) {
 	e := c36Setup(t)
 	defer os.RemoveAll(e.root)
 	keep := os.Getenv("C36_KEEP") != ""
-	vh.Check(t, "formats", 24, 30, func(rt *rapid.T) {
+	vh.Check(t, "formats", 9, 20, func(rt *rapid.T) {
 		format := []string{"csv", "json", "parquet"}[rapid.IntRange(0, 2).Draw(rt, "format")]
 		gate := c36NewGate()
 		gate.format = format
